@@ -107,6 +107,13 @@ static Dump memccs_normalised(const Dump &d) {
   return n;
 }
 // a Group that is not dont_merge and has the same cpuset as its parent or as its only normal child: load-time rules would have merged it
+// known finding: a normal object left without anything below it (no PU, no memory, no I/O, no Misc) by an insertion that moved its memory
+// children up to a new Group with identical sets; the loader's remove_empty pass drops such objects, so they are missing after a reload
+static bool empty_object_dropped(const Dump &ds, const Dump &dd) {
+  for (auto &kv : ds.objs) { const ObjRec &o = kv.second; if (o.kind() != 0 || o.type == HWLOC_OBJ_PU || o.type == HWLOC_OBJ_MACHINE) continue;
+    if (o.kids[0].empty() && o.kids[1].empty() && o.kids[2].empty() && o.kids[3].empty() && o.cs.empty() && !dd.objs.count(kv.first)) return true; }
+  return false;
+}
 static bool has_redundant_group(const Dump &d) {
   for (auto &kv : d.objs) { const ObjRec &o = kv.second; if (o.type != HWLOC_OBJ_GROUP || o.attr.find("dont_merge=1") != std::string::npos) continue;
     const ObjRec *p = d.find(o.parent); if (p && p->hassets && p->cs == o.cs) return true;
@@ -222,6 +229,7 @@ bool ops_repl(World &w, const Op &o) {
     if (v2) {
       std::string a = tree_sets_text(ds), b = tree_sets_text(dd);
       if (a != b && tree_sets_text(memccs_normalised(ds)) == tree_sets_text(memccs_normalised(dd))) viol0(w, "C05", "xml.v2_tree_differs.memory_child_complete_cpuset", "only the complete_cpuset of memory objects differs: the exported topology has a NUMA node/MemCache whose complete_cpuset is not its parent's, XML import always copies the parent's");
+      if (a != b && empty_object_dropped(ds, dd)) viol0(w, "C05", "xml.v2_tree_differs.empty_object_dropped", "the exported topology holds a CPU-less normal object with nothing below it; the loader drops empty objects");
       if (a != b) { std::string la, lb; first_diff(a, b, la, lb); viol0(w, "C05", "xml.v2_tree_differs", "v2 export reloads to a different tree/sets: '%s' vs '%s'", la.c_str(), lb.c_str()); }
       for (auto &kv : dd.objs) if (kv.second.userdata) D.userdata[kv.first] = kv.second.userdata;   // tokens restored by the import callback
       derive_models(w, si, di, true);   // v2 format promises tree and sets only: the models restart from what the reload reports
@@ -238,6 +246,7 @@ bool ops_repl(World &w, const Op &o) {
     if (dropped) r.count("probe.xml_sections_ignored_by_flags");
     std::string a = ds.text(true), b = dd.text(true);
     if (a != b && memccs_normalised(ds).text(true) == memccs_normalised(dd).text(true)) viol0(w, "C05", "xml.dump_differs.memory_child_complete_cpuset", "only the complete_cpuset of memory objects differs: the exported topology has a NUMA node/MemCache whose complete_cpuset is not its parent's, XML import always copies the parent's");
+    if (a != b && empty_object_dropped(ds, dd)) viol0(w, "C05", "xml.dump_differs.empty_object_dropped", "the exported topology holds a CPU-less normal object with nothing below it (its memory children were moved up to an inserted Group with identical sets); the loader drops empty objects");
     if (a != b && has_redundant_group(ds) && dd.depth < ds.depth) viol0(w, "C05", "xml.dump_differs.redundant_group_level", "the exported topology holds a mergeable Group with the cpuset of its parent/only child (inserted by insert_group_object); the reload merges that level (depth %d -> %d)", ds.depth, dd.depth);
     if (a != b && getenv("HWSIM_DIFFDIR")) { std::string d = getenv("HWSIM_DIFFDIR"); FILE *f = fopen((d + "/a.txt").c_str(), "w"); fputs(a.c_str(), f); fclose(f); f = fopen((d + "/b.txt").c_str(), "w"); fputs(b.c_str(), f); fclose(f); f = fopen((d + "/x.xml").c_str(), "w"); fputs(xml.c_str(), f); fclose(f); }
     if (a != b && has_overlapping_initiators(ds) && ds.aux_text(true) != dd.aux_text(true)) { Dump x = ds, y = dd; x.memattrs.clear(); y.memattrs.clear(); if (x.text(true) == y.text(true)) viol0(w, "C05", "xml.dump_differs.overlapping_memattr_initiators", "a memattr target holds cpuset initiators that are equal or overlap (narrowed by restrict); XML import re-adds them with set_value, which matches an existing initiator by inclusion and overwrites it"); }
